@@ -254,13 +254,22 @@ impl Global {
         // All pinned participants were pinned in the current global epoch.
         // Now let's advance the global epoch...
         //
-        // Note that if another thread already advanced it before us, this store will simply
-        // overwrite the global epoch with the same value. This is true because `try_advance` was
-        // called from a thread that was pinned in `global_epoch`, and the global epoch cannot be
-        // advanced two steps ahead of it.
+        // Note that another thread may already have advanced it before us, even by more than one
+        // step: the traversal above may have unlinked a participant and deferred its destruction,
+        // and if that overflowed the bag of a thread that is collecting, the thread was re-pinned
+        // in a later epoch (`schedule_collection`) and no longer holds the epoch back. A plain
+        // store could then move the global epoch backwards, so advance it only from the value
+        // that was checked.
         let new_epoch = global_epoch.successor();
-        self.epoch.store(new_epoch, Ordering::Release);
-        new_epoch
+        match self.epoch.compare_exchange(
+            global_epoch,
+            new_epoch,
+            Ordering::Release,
+            Ordering::Relaxed,
+        ) {
+            Ok(_) => new_epoch,
+            Err(current) => current,
+        }
     }
 }
 
